@@ -2,7 +2,9 @@ package props
 
 import (
 	"fmt"
+	"go/constant"
 	"go/token"
+	"regexp"
 	"strings"
 
 	"golang.org/x/tools/go/ssa"
@@ -454,7 +456,7 @@ func headerContracts(c *Ctx, withReservedStop bool) *bounds.Hooks {
 			}
 			h.Oblige("ext-exact ("+arm+"): header length = end of the extension block", ok, detail)
 		}
-	}}
+	}, AtInstr: sizeMessageContract(c, hu)}
 }
 
 // sizeSibling: MarshalSize and MarshalTo agree arm by arm.
@@ -633,4 +635,78 @@ func profileDispatch(c *Ctx) int {
 			len(got) == 2 && got[0] == 0x1000 && got[1] == 0xBEDE && masked == 0, fmt.Sprintf("constants %s, %d comparisons on a masked profile", u64s(got), masked))
 	}
 	return n
+}
+
+// sizeMessageContract: the "size %d < %d" errors of Header.Unmarshal whose first number is
+// len(buf) tell the truth: on the path that builds the message, len(buf) is indeed smaller than the
+// size it names. A length test made stricter by one (`<` turned into `<=`) rejects a packet that
+// ends exactly where the header does (no payload, or no extension elements) and makes the message
+// false; a test made weaker is a BOUNDS.IDX/SLC finding already.
+func sizeMessageContract(c *Ctx, hu *ssa.Function) func(h *bounds.Helper, fn *ssa.Function, in ssa.Instruction, d *bounds.Disjunct) {
+	re := regexp.MustCompile(`%[dv] *(<=?) *%[dv]`)
+	return func(h *bounds.Helper, fn *ssa.Function, in ssa.Instruction, d *bounds.Disjunct) {
+		call, ok := in.(*ssa.Call)
+		if !ok || fn != hu || core.CalleeFullName(call) != "fmt.Errorf" || len(call.Call.Args) != 2 {
+			return
+		}
+		fc, ok := call.Call.Args[0].(*ssa.Const)
+		if !ok || fc.Value == nil || fc.Value.Kind() != constant.String {
+			return
+		}
+		format := constant.StringVal(fc.Value)
+		loc := re.FindStringSubmatchIndex(format)
+		if loc == nil {
+			return
+		}
+		op := format[loc[2]:loc[3]]
+		first := strings.Count(format[:loc[0]], "%") // verbs before the pair (no %% in these messages)
+		sl, ok := call.Call.Args[1].(*ssa.Slice)
+		if !ok {
+			return
+		}
+		arr, ok := sl.X.(*ssa.Alloc)
+		if !ok {
+			return
+		}
+		argAt := func(i int) ssa.Value {
+			for _, ref := range *arr.Referrers() {
+				ia, ok := ref.(*ssa.IndexAddr)
+				if !ok {
+					continue
+				}
+				if k, isC := core.ConstInt(ia.Index); !isC || int(k) != i {
+					continue
+				}
+				for _, r2 := range *ia.Referrers() {
+					if st, ok := r2.(*ssa.Store); ok && st.Addr == ia {
+						if mi, ok := st.Val.(*ssa.MakeInterface); ok {
+							return mi.X
+						}
+						return st.Val
+					}
+				}
+			}
+			return nil
+		}
+		a, b := argAt(first), argAt(first+1)
+		if a == nil || b == nil {
+			return
+		}
+		lc, isLen := a.(*ssa.Call)
+		if !isLen || core.BuiltinName(lc) != "len" {
+			return
+		}
+		if _, isParam := lc.Call.Args[0].(*ssa.Parameter); !isParam {
+			return
+		}
+		la, lb := d.Int(a), d.Int(b)
+		if la == nil || lb == nil {
+			return
+		}
+		q := lin.LT(la, lb)
+		if op == "<=" {
+			q = lin.LE(la, lb)
+		}
+		h.Oblige("size error is raised only when the input is too short ("+format+")", d.Entails(q), "the error is reachable although the input has the size it asks for: "+d.Describe(q))
+	}
 }
